@@ -1,5 +1,5 @@
 """C04 - Descriptor views agree with the Go protobuf runtime."""
-import glob, os, re
+import glob, os, re, zlib
 from vlib import *
 import featgen, pgenlib
 
@@ -12,18 +12,20 @@ THEOREMS = ["C04_resolve_feature_is_nearest_override", "C04_has_presence_eq_runt
             "C04_has_optional_keyword_eq_runtime", "C04_source_rules_give_no_legacy_required",
             "C04_is_closed_eq_runtime", "C04_required_numbers_eq_runtime",
             "C04_default_int_of_rendered", "C04_default_int_eq_runtime",
-            "C04_ranges_has_eq_runtime", "C04_ranges_has_is_membership"]
+            "C04_ranges_has_eq_runtime", "C04_ranges_has_is_membership",
+            "C04_text_name_eq_runtime", "C04_text_name_not_lowered"]
 AXIOMS_OK = []
-TRUSTED = ["hand-written Gallina models: Model/Features.v (internal/editions.ResolveFeature, GetFeatureDefault, GetEditionDefaults, linker resolveFeature, protoutil.ResolveFeature), Model/FieldView.v (fldDescriptor.Cardinality/Kind/HasPresence/IsPacked/HasOptionalKeyword/IsMap/IsList, enumDescriptor.IsClosed, msgDescriptor.RequiredNumbers)",
+TRUSTED = ["hand-written Gallina models: Model/Features.v (internal/editions.ResolveFeature, GetFeatureDefault, GetEditionDefaults, linker resolveFeature, protoutil.ResolveFeature), Model/FieldView.v (fldDescriptor.Cardinality/Kind/HasPresence/IsPacked/HasOptionalKeyword/IsMap/IsList/TextName/looksLikeGroup, enumDescriptor.IsClosed, msgDescriptor.RequiredNumbers)",
            "Model/Ranges.v: hand-written models of fieldRanges.Has / enumRanges.Has (linker: scan in declaration order) and of protobuf-go filedesc FieldRanges.Has / EnumRanges.Has (sorted copy + binary search); both validated on every run against the real Has on every generated message / enum with ranges",
-           "Model/RuntimeSpec.v: transcription of protobuf-go v1.36.11 protodesc/filedesc rules (mergeEditionFeatures, initFieldsFromDescriptorProto, desc_resolve.go, filedesc.Field/Extension accessors); validated on every run against protodesc.NewFile on every generated element",
+           "Model/RuntimeSpec.v: transcription of protobuf-go v1.36.11 protodesc/filedesc rules (mergeEditionFeatures, initFieldsFromDescriptorProto, desc_resolve.go, filedesc.Field/Extension accessors, isGroupLike / stringName.lazyInit for the text name); validated on every run against protodesc.NewFile on every generated element",
            "transcription script checks/featgen.py (pregen): edition_defaults of descriptor.pb.go's embedded descriptor and editions_defaults.binpb -> Model/FeaturesTables.v; cross-checked on every run against editions.GetEditionDefaults and the runtime's behaviour on featureless files",
            "correspondence harness harness/cmd/views (public API only) and the program generator checks/pgenlib.py"]
 ASSUMPTIONS = ["the agreement theorems assume wf_field / wf_enum (Model/RuntimeSpec.v): supported edition; no features in proto2/proto3 files; label in {optional, required, repeated}; a map-entry message is referenced only by its own repeated non-extension message field; LEGACY_REQUIRED never in force for a repeated field, an extension, a oneof member or a map-entry member; map-entry members are plain fields; extensions are not oneof members; proto3_optional only on optional proto3 fields. The check evaluates the guard on every generated element and reports how many satisfy it; from-source programs always do",
                "protobuf-go is the reference and is not verified",
                "default values: Default() of the integer kinds is modelled (parse of the compiled default_value text with the range of the kind) and proved equal to the number the text denotes and to what the runtime reads; defaults of the other kinds (float/double, bool, enum, string, bytes) are compared linker-vs-runtime only",
                "Has of the range views is modelled and proved equal to the runtime's under ranges_valid (non-empty, pairwise non-overlapping ranges, any declaration order; the check evaluates the guard on every observed list); sort.Slice is modelled as insertion sort by start (the starts of a valid list are distinct, so the sorted copy is unique)",
-               "attributes outside the modelled vector (names, numbers, JSON/text names, non-integer defaults, Len/Get of ranges, map key/value, oneof membership, services, the lookup methods ByName / ByNumber / ByJSONName / ByTextName / Names.Has / FieldNumbers.Has of every list view, Parent / ParentFile / Options) are compared impl-vs-runtime only (direct oracle), not modelled"]
+               "text names: TextName() is modelled on both sides for identifiers of ASCII letters, digits and underscores (strings.ToLower = A-Z to a-z); the agreement theorem assumes scopes_by_name (for a non-extension field the runtime's same-file and same-parent-descriptor tests hold exactly when the parent NAMES of field and message type are equal, i.e. full names are unique in a link); the check evaluates this guard on every message-typed field from the runtime's own descriptors; MessageSet extensions (rejected by protodesc.NewFile without the protolegacy tag) are outside the model",
+               "attributes outside the modelled vector (names, numbers, JSON names, the text names of fields without a message type, non-integer defaults, Len/Get of ranges, map key/value, oneof membership, services, the lookup methods ByName / ByNumber / ByJSONName / ByTextName / Names.Has / FieldNumbers.Has of every list view, Parent / ParentFile / Options) are compared impl-vs-runtime only (direct oracle), not modelled"]
 
 FEATS = featgen.FEATURES
 # The model mirrors the repaired code (fixes C04-required-numbers, C04-is-closed-unknown, C04-map-enum-first-value);
@@ -91,6 +93,29 @@ def int_of_def(d):
     """harness rendering of an integer protoreflect.Value: <go type>:<decimal>"""
     m = re.match(r"^u?int(32|64):(-?\d+)$", d or "")
     return int(m.group(2)) if m else None
+
+
+def c_names(ein):
+    mp, _, mn = ein["tname"].rpartition(".")
+    return "(mknames %s %s %s %s %s)" % (c_string(ein["pname"]), c_string((ein["parent"] + "." if ein["parent"] else "") + ein["pname"]),
+                                         c_string(ein["parent"]), c_string(mn), c_string(mp))
+
+
+def text_term(ein, lk, rt, rtscope):
+    """(VTextName term, stratum, value of the guard scopes_by_name). The stratum names the spelling relation between the
+    field's name and the simple name of its message type, where the type is declared, and the kind the linker reports."""
+    mp, _, mn = ein["tname"].rpartition(".")
+    nm = ein["pname"]
+    rel = "lower" if nm == mn.lower() else "caseonly" if nm.lower() == mn.lower() else "other"
+    names_eq = mp == ein["parent"]
+    guard = True
+    rtt = "None"
+    if rt is not None and rtscope is not None:
+        guard = bool(ein["ext"]) or ((rtscope[0] and rtscope[1]) == names_eq)
+        rtt = "(Some (%s, %s, %s))" % (c_string(rt["text"]), coq_bool(rtscope[0]), coq_bool(rtscope[1]))
+    t = "VTextName %s %s %s %s %s" % (c_field(ein), c_names(ein), c_string(lk["text"]), rtt, coq_bool(guard))
+    tk = "%s-%s-%s%s" % ("group" if lk["kind"] == 10 else "message", rel, "samescope" if names_eq else "otherscope", "-ext" if ein["ext"] else "")
+    return t, tk, guard
 
 
 def c_feat(feat):
@@ -239,11 +264,18 @@ def run(ctx):
     nprog = ctx.budget(100, 1000)
     nadv = ctx.budget(60, 600)
     ninj = ctx.budget(80, 800)
+    ngl = ctx.budget(40, 400)
     ctx.rule = ("programs: hand-written corpus + the repository's editions fixtures + %d generated multi-file programs (proto2/proto3/edition 2023; "
                 "feature overrides wherever the option targets allow: file, message(json_format), field, enum; messages nested 0-4 deep; maps, groups, "
                 "oneofs, proto3 optional, packed options, extensions at file and message scope, *_UNKNOWN feature values) + %d programs of the same generator with "
                 "adversarial declaration orders (several extension / reserved ranges per message and enum declared out of ascending order, adjacent, single numbers, "
                 "to max, negative enum ranges, int32 extremes; fields, oneofs and range statements of a message shuffled so that numbers and names are not ascending) "
+                "+ %d programs of the same generator with group-like strata (editions: message-typed fields whose name is the lower-cased simple name of the "
+                "type / equals it only ignoring case / is the very same spelling / a near miss / unrelated, the type declared in the field's scope / inside a "
+                "sibling / in the enclosing scope / the containing message itself / an imported file, DELIMITED or LENGTH_PREFIXED or MESSAGE_ENCODING_UNKNOWN on the "
+                "field or inherited from the file, singular / repeated / oneof member / extension at message and file scope, with and without json_name; "
+                "proto2: groups in extend blocks); TextName() of every message-typed field is also evaluated against the Coq models of both sides, "
+                "and the run fails if a stratum (group kind x {lower, caseonly, other} x {samescope, otherscope}) is empty "
                 "+ %d variants re-fed as descriptor "
                 "protos with overrides of all six features injected on messages, oneofs and enums at any depth; one evaluation = one descriptor element "
                 "(field, extension, message, enum, oneof); distinct = distinct (model input, observation) term; non-trivial = an editions element or one "
@@ -252,7 +284,7 @@ def run(ctx):
                 "Has of reserved / extension ranges, reserved names and required numbers at and around every bound and every field number, ByNumber / ByName / "
                 "ByJSONName / ByTextName of the field lists (message and oneof), ByName / ByNumber of enum values, ByName of the message / enum / extension / "
                 "oneof / service / method lists for every name in scope in lower and upper case, Parent / ParentFile / Syntax / IsPlaceholder / Options; Has of the "
-                "range views is also evaluated against the Coq models of both sides" % (nprog, nadv, ninj))
+                "range views is also evaluated against the Coq models of both sides" % (nprog, nadv, ngl, ninj))
     cases = []
     for text in pgenlib.CORPUS_C04 + pgenlib.CORPUS_C04_LOOKUPS + corpus_dir():
         cases.append({"files": {"c.proto": text}, "main": "c.proto", "origin": "corpus"})
@@ -267,6 +299,14 @@ def run(ctx):
     cfg_adv = pgenlib.Cfg(adversarial_order=True)
     for _ in range(nadv):
         p = pgenlib.gen_program(rng, cfg_adv)
+        progs.append(p)
+        for fn in p.order:
+            cases.append({"files": {k: p.files[k] for k in p.order[: p.order.index(fn) + 1]}, "main": fn, "origin": "generated"})
+    # group-like stratum: message-typed fields of editions files for every spelling relation between the field's name and
+    # its type's name x where the type is declared x encoding x position (pgenlib Cfg.grouplike); small programs
+    cfg_gl = pgenlib.Cfg(grouplike=True, size=2, max_depth=2)
+    for _ in range(ngl):
+        p = pgenlib.gen_program(rng, cfg_gl, syntax=None if rng.chance(1, 4) else "editions")
         progs.append(p)
         for fn in p.order:
             cases.append({"files": {k: p.files[k] for k in p.order[: p.order.index(fn) + 1]}, "main": fn, "origin": "generated"})
@@ -306,6 +346,7 @@ def run(ctx):
     import time as _t
     ctx.extra["t_impl"] = round(_t.time() - ctx.t0, 1)
     seen_terms = {}
+    textname_classes = {}
     stats = {"programs": 0, "rejected": 0, "elements": 0, "outside_guard": 0, "outside_guard_diffs": 0, "runtime_rejected": 0}
 
     def add_term(t, m):
@@ -418,6 +459,18 @@ def run(ctx):
                         ctx.count(dt, ein["hasdefval"], "default-int")
                         add_term(dt, ("default-int", m[1]))
                 klass = "field-%s%s" % ({998: "proto2", 999: "proto3"}.get(ein["ed"], "editions"), "-injected" if injected else "")
+                # TextName() of a message-typed field against the models of both sides
+                # (plain message fields whose name is unrelated to the type's name: one in eight, chosen by a hash of the names)
+                if ein["type"] in (10, 11) and ein.get("tname") and (
+                        lk["kind"] == 10 or ein["pname"].lower() == ein["tname"].rpartition(".")[2].lower()
+                        or zlib.crc32((e["name"] + "|" + ein["tname"]).encode()) % 8 == 0):
+                    tt, tk, guard = text_term(ein, lk, rt, e.get("rtscope"))
+                    if not guard:
+                        stats["textname_outside_guard"] = stats.get("textname_outside_guard", 0) + 1
+                    ctx.count(tt, lk["kind"] == 10, "textname-" + tk)
+                    textname_classes[tk] = textname_classes.get(tk, 0) + 1
+                    add_term(tt, ("textname", replay_of(c, {"element": e["name"], "in": ein, "linker_text": lk["text"],
+                                                            "runtime_text": None if rt is None else rt["text"], "rtscope": e.get("rtscope")})))
             elif e["k"] == "msg":
                 t = "VMsgAll %s %s %s" % (coq_list(ein["fields"], c_field), "[" + "; ".join(str(x) for x in lk["req"]) + "]",
                                           "None" if rt is None else "(Some [%s])" % "; ".join(str(x) for x in rt["req"]))
@@ -458,6 +511,11 @@ def run(ctx):
         if len(ctx.samples) < 3 and c["origin"] == "generated" and len(c["files"][c["main"]]) < 900:
             ctx.sample({"main": c["main"], "text": c["files"][c["main"]]})
     stats["grouplike_alias_queries"] = GROUPLIKE_ALIASES
+    stats["textname_strata"] = dict(sorted(textname_classes.items()))
+    need = ["group-%s-%s" % (a, b) for a in ("lower", "caseonly", "other") for b in ("samescope", "otherscope")]
+    empty = [k for k in need if textname_classes.get(k, 0) < 3]
+    if empty:
+        raise RuntimeError("text-name strata with fewer than 3 fields: %r (have %r)" % (empty, textname_classes))
     ctx.extra["c04_stats"] = stats
     if stats["programs"] < 20:
         raise RuntimeError("too few accepted programs: %r" % stats)
@@ -505,6 +563,14 @@ def run(ctx):
                     split_meta.append(("runtime-spec:is-closed", k))
                 split_terms.append("VWfEnum %d %s %s %s" % (ein["ed"], c_chain(ein["chain"]), coq_bool(wf_enum(T, ein)), coq_bool(et_known(ein))))
                 split_meta.append(("plugin-guard:enum", k))
+            elif t.startswith("VTextName"):
+                fin = rep["in"]
+                split_terms.append("VTextLk %s %s %s" % (c_field(fin), c_names(fin), c_string(rep["linker_text"])))
+                split_meta.append(("model:text-name", k))
+                if rep["runtime_text"] is not None and rep["rtscope"] is not None:
+                    split_terms.append("VTextRt %s %s %s %s %s" % (c_field(fin), c_names(fin), c_string(rep["runtime_text"]),
+                                                                   coq_bool(rep["rtscope"][0]), coq_bool(rep["rtscope"][1])))
+                    split_meta.append(("runtime-spec:text-name", k))
             elif t.startswith("VRangesHas"):
                 pre = "%s %s" % (coq_bool(rep["incl"]), c_ranges(rep["ranges"]))
                 split_terms.append("VRangesLk %s %s %s" % (pre, c_zlist(rep["asked"]), c_zlist(rep["linker_has"])))
